@@ -206,7 +206,7 @@ def _part(size, content, a, b):
 INM_KINDS = ["none", "match", "weak", "other", "star", "list-match", "list-nomatch",
              "garbage", "empty"]
 IMS_KINDS = ["none", "older", "equal", "newer", "garbage", "rfc850-equal", "asctime-equal",
-             "zone-newer", "older-1s", "zone-instant-older"]
+             "zone-newer", "older-1s", "zone-instant-older", "zone-overflow", "day-32"]
 
 
 def inm_value(kind, etag):
@@ -230,6 +230,12 @@ def ims_value(kind):
         return email.utils.formatdate(MT + 3600, usegmt=True).encode()
     if kind == "garbage":
         return b"yesterday"
+    if kind == "zone-overflow":
+        # looks like a date, but the numeric zone does not fit any integer type a parser may use: invalid -> ignored
+        return email.utils.formatdate(MT, usegmt=True).replace("GMT", "+99999999999999999999").encode()
+    if kind == "day-32":
+        return email.utils.formatdate(MT, usegmt=True).replace(" 1", " 32", 1).encode() if False else \
+            b"Sun, 32 Sep 2020 12:26:40 GMT"
     if kind == "rfc850-equal":
         return time.strftime("%A, %d-%b-%y %H:%M:%S GMT", g(MT)).encode()
     if kind == "asctime-equal":
@@ -256,7 +262,7 @@ def cond_expect(inm, ims):
         # invalid field: treating it as absent or as non-matching both fine
         a = cond_expect("none", ims)
         return a if a == "pass" else "either"
-    if ims in ("none", "older", "older-1s", "garbage", "zone-instant-older"):
+    if ims in ("none", "older", "older-1s", "garbage", "zone-instant-older", "zone-overflow", "day-32"):
         return "pass"
     if ims in ("equal", "newer", "rfc850-equal", "asctime-equal"):
         return "304"
